@@ -973,8 +973,18 @@ func (tc *typechecker) binaryOp(expr1 ast.Expression, op ast.OperatorType, expr2
 
 		typ := t1.Type
 		if evalToBoolOperators[op] {
-			typ = boolType
-		} else if !isShift && t1.Untyped() && t1.Type.Kind() < t2.Type.Kind() {
+			// The result of a comparison is an untyped boolean, the result
+			// of && and || has the type of the operands.
+			if op != ast.OperatorAnd && op != ast.OperatorOr {
+				typ = boolType
+			}
+		} else if isShift {
+			// If the left operand of a constant shift expression is an
+			// untyped constant, the result is an integer constant.
+			if t1.Untyped() && !t1.IsInteger() {
+				typ = intType
+			}
+		} else if t1.Untyped() && t1.Type.Kind() < t2.Type.Kind() {
 			typ = t2.Type
 		}
 		ti := &typeInfo{Type: typ, Constant: c}
